@@ -212,11 +212,15 @@ def r08_3(ctx):
     (ctx.ok(construct, inj.loc(first)) if ok else ctx.bad(construct, "defaults are rewritten from an unvalidated sdkconfig value", inj.loc()))
     construct = "Symbol.resolve_defaults/skips user-set, choice, absent and invisible symbols"
     r = repo.func(f"{CORE}:Symbol.resolve_defaults")
-    first = [n for n in r.node.body if isinstance(n, ast.If)][0]
-    t = ast.unparse(first.test)
-    ok = all(x in t for x in ("self._user_value is not None", "self.choice", "self._sdkconfig_value is None", "self.resolve_vis() == 0")) \
-        and isinstance(first.body[-1], ast.Return)
-    (ctx.ok(construct, r.loc(first)) if ok else ctx.bad(construct, f"early-exit test is `{t}`", r.loc(first)))
+    flr = Flow(r.node, resolver=Resolver(r.node)).run()
+    cmps = [n for n in r.node.body if isinstance(n, ast.If) and "self.str_value" in ast.unparse(n.test) and "_sdkconfig_value" in ast.unparse(n.test)]
+    if not cmps:
+        raise AnchorError("Symbol.resolve_defaults: comparison of the evaluated value with the stored one not found")
+    gs = flr.guards_at(cmps[0].test) or set()
+    want = {("self._user_value is None", True), ("self.choice", False), ("self._sdkconfig_value is None", False), ("self.resolve_vis() == 0", False)}
+    miss = sorted(want - gs)
+    (ctx.ok(construct, r.loc(cmps[0]), guards=sorted(gs)) if not miss else
+     ctx.bad(construct, f"the comparison is reached without {miss} being established (guards there: {sorted(gs)})", r.loc(cmps[0])))
 
 
 def r08_5(ctx):
@@ -305,12 +309,15 @@ def r08_7(ctx):
     repo = ctx.repo
     f = repo.func(f"{CORE}:Symbol.resolve_defaults")
     ctx.analysed(f.qual)
-    first = [n for n in f.node.body if isinstance(n, ast.If)][0]
     construct = "Symbol.resolve_defaults/visibility judged after the dependencies were resolved"
-    t = ast.unparse(first.test)
-    ok = "self.resolve_vis() == 0" in t and "self.visibility == 0" not in t
-    (ctx.ok(construct, f.loc(first)) if ok else ctx.bad(construct, "the early exit tests the plain visibility: an option depending on a default-marked bool that is "
-                                                        "restored later is judged invisible and its stored default is silently dropped", f.loc(first)))
+    flf = Flow(f.node, resolver=Resolver(f.node)).run()
+    cmp0 = [n for n in f.node.body if isinstance(n, ast.If) and "self.str_value" in ast.unparse(n.test) and "_sdkconfig_value" in ast.unparse(n.test)]
+    gs0 = (flf.guards_at(cmp0[0].test) or set()) if cmp0 else set()
+    via = ("self.resolve_vis() == 0", False) in gs0
+    plain = any(k.startswith("self.visibility") for k, _ in gs0)
+    (ctx.ok(construct, f.loc(cmp0[0]) if cmp0 else f.loc()) if via and not plain else
+     ctx.bad(construct, "the comparison is not reached through `resolve_vis() != 0` (or tests the plain visibility): an option depending on a "
+             "default-marked bool that is restored later is judged invisible and its stored default is silently dropped", f.loc(cmp0[0]) if cmp0 else f.loc()))
     loops = [n for n in f.node.body if isinstance(n, ast.For) and ast.unparse(n.iter) == "self.dependencies"]
     cmpi = [n for n in f.node.body if isinstance(n, ast.If) and "self.str_value != str(self._sdkconfig_value)" in ast.unparse(n.test)]
     construct = "Symbol.resolve_defaults/dependencies resolved before the comparison"
